@@ -150,7 +150,7 @@ func inInnerLoop(b, hdr *ssa.BasicBlock) bool {
 }
 
 func isGetInvoke(c *ssa.CallCommon) bool {
-	return c.IsInvoke() && c.Method.Name() == "Get" && typeNameOf(c.Value.Type()) == "VariableFetcher"
+	return c.IsInvoke() && nm(c.Method) == "Get" && typeNameOf(c.Value.Type()) == "VariableFetcher"
 }
 
 // getKeysNode returns the node both keys of a Get come from (nil if they differ).
